@@ -160,8 +160,18 @@ func MustUnX(s string) []byte {
 }
 func UnXS(s string) string { return string(MustUnX(s)) }
 
+// caseTimeouts counts cases that hit the per-case timeout; after a few of them the run stops
+// executing further cases (a defect that makes the real code hang would otherwise cost
+// timeout x cases). The timeouts already recorded are oracle failures, so the verdict stands.
+var caseTimeouts int
+
 func runCase(p *Prop, idx int, lines []string) (c *Case) {
 	c = &Case{Index: idx, Lines: lines, stats: map[string]int{}}
+	if caseTimeouts >= 3 {
+		c.Out("!skipped", "!skipped")
+		c.stats["skipped-after-repeated-timeouts"]++
+		return c
+	}
 	done := make(chan struct{})
 	go func() {
 		defer close(done)
@@ -178,6 +188,7 @@ func runCase(p *Prop, idx int, lines []string) (c *Case) {
 	case <-done:
 	case <-time.After(to):
 		c = &Case{Index: idx, Lines: lines, stats: map[string]int{}}
+		caseTimeouts++
 		c.Out("!timeout", "!timeout")
 		c.Oracle("harness-timeout", fmt.Sprintf("case did not finish within %s", to))
 	}
